@@ -6,7 +6,7 @@ ID = "C07"
 ENGINE = "trainsim"
 LEVEL = "exploration"
 EXPECTED_S_PER_RUN = 8.0
-TIERS = {"quick": 160, "thorough": 5000}
+TIERS = {"quick": 160, "thorough": 3000}
 
 RULE = (
     "each run draws a training program: equation kind (ODE, stationary 1-D/2-D, space-time 1-D/2-D, system of 2 ODEs) with an "
